@@ -11,9 +11,21 @@
 //	         F<id>                the handler of stream id returns        (its END_STREAM frame goes in flight)
 //	         P<id>                the handler of stream id panics         (its handlerPanicRST goes in flight)
 //	         W                    the frame in flight has been written    (wroteFrame)
-//	result = <outcome>,<outcome>,...|<maxStreamID>:<curOpenStreams>:<live streams>
-//	outcome = ok | rst:<code> | ga:<code> | close | held | skip | busy | nohandler | idle | panic:<which>
-//	          the script stops at the first ga / close / panic (the connection is over)
+//	         S | Sa | Si<val>     client SETTINGS: empty / ACK / SETTINGS_INITIAL_WINDOW_SIZE=val
+//	         G0 | Ga | G<id>      client PING / PING ACK / PING on stream id (illegal)
+//	         U<id>:<inc>          client WINDOW_UPDATE (id 0 = connection)
+//	         Y<id>:<dep>:<0|1>    client PRIORITY (dependency, exclusive flag)
+//	         C<id>                a CONTINUATION frame that follows nothing
+//	         X<id>                HEADERS without END_HEADERS followed by DATA
+//	         K<id>:<0|1>          a valid request sent as HEADERS + CONTINUATION, END_STREAM flag
+//	         A                    client GOAWAY
+//	         Q                    graceful shutdown requested (serve loop's closeNotifyCh case: goAway(NO_ERROR))
+//	result = <outcome>,...|<maxStreamID>:<curOpenStreams>:<conn send window>:<initial window>:<live streams with send window>
+//	outcome = ok | rst:<code> | ga:<code> | close | held | skip | queued | busy | nohandler | idle | gone | fail | panic:<which>
+//	          fail = a SETTINGS frame was rejected while a GOAWAY was already under way (nothing is sent)
+//	          gone = the frame reader has stopped after a framing-level connection error (readFrames returned);
+//	          the script goes on after a GOAWAY (frames are still processed under the inGoAway rules) and stops
+//	          at close / panic, and at a SETTINGS that ends in ga:3 (streams may be half updated, in map order)
 package main
 
 import (
@@ -46,9 +58,49 @@ func exec(op string) string {
 		f := strings.Split(e[1:], ":")
 		id64, _ := strconv.ParseUint(f[0], 10, 31)
 		id := uint32(id64)
+		num := func(x string) (uint32, bool) {
+			n, err := strconv.ParseUint(x, 10, 32)
+			return uint32(n), err == nil
+		}
 		switch {
 		case e == "W":
 			r = v.Wrote()
+		case e == "A":
+			r = v.ClientGoAway()
+		case e == "Q":
+			r = v.Graceful()
+		case e == "S":
+			r = v.Settings(false, -1)
+		case e == "Sa":
+			r = v.Settings(true, -1)
+		case strings.HasPrefix(e, "Si"):
+			n, ok := num(e[2:])
+			if !ok {
+				return "bad-op"
+			}
+			r = v.Settings(false, int64(n))
+		case e == "Ga":
+			r = v.Ping(0, true)
+		case e[0] == 'G' && len(f) == 1:
+			r = v.Ping(id, false)
+		case e[0] == 'U' && len(f) == 2:
+			n, ok := num(f[1])
+			if !ok {
+				return "bad-op"
+			}
+			r = v.WindowUpdate(id, n)
+		case e[0] == 'Y' && len(f) == 3:
+			d, ok := num(f[1])
+			if !ok {
+				return "bad-op"
+			}
+			r = v.Priority(id, d, f[2] == "1")
+		case e[0] == 'C' && len(f) == 1:
+			r = v.Continuation(id)
+		case e[0] == 'X' && len(f) == 1:
+			r = v.HeadersBroken(id)
+		case e[0] == 'K' && len(f) == 2:
+			r = v.HeadersSplit(id, f[1] == "1")
 		case e[0] == 'H' && len(f) == 3:
 			r = v.Headers(id, f[1] == "1", f[2])
 		case e[0] == 'D' && len(f) == 3:
@@ -67,7 +119,7 @@ func exec(op string) string {
 			return "bad-op"
 		}
 		outs = append(outs, r)
-		if r == "close" || strings.HasPrefix(r, "ga:") || strings.HasPrefix(r, "panic") || r == "HANG" {
+		if r == "close" || strings.HasPrefix(r, "panic") || r == "HANG" || (e[0] == 'S' && (r == "ga:3" || r == "fail")) {
 			break
 		}
 	}
@@ -155,16 +207,28 @@ func gen(r *vh.Rand) string {
 				id := from(alive)
 				open = del(open, id)
 				evs = append(evs, fmt.Sprintf("R%d", id))
-			case x < 16:
+			case x < 15:
 				id := from(alive)
 				alive = del(alive, id)
 				evs = append(evs, fmt.Sprintf("F%d", id))
-			case x < 17:
+			case x < 16:
 				id := from(alive)
 				alive = del(alive, id)
 				evs = append(evs, fmt.Sprintf("P%d", id))
-			default:
+			case x < 17:
+				id := next
+				next += 2
+				end := r.Intn(2)
+				used = append(used, id)
+				alive = append(alive, id)
+				if end == 0 {
+					open = append(open, id)
+				}
+				evs = append(evs, fmt.Sprintf("K%d:%d", id, end))
+			case x < 19:
 				evs = append(evs, "W")
+			default:
+				evs = append(evs, genCtl(r, from(alive), any()))
 			}
 			continue
 		}
@@ -175,15 +239,57 @@ func gen(r *vh.Rand) string {
 			evs = append(evs, fmt.Sprintf("D%d:%d:%d", any(), []int{0, 1, 3, 5, 7}[r.Intn(5)], r.Intn(2)))
 		case x < 13:
 			evs = append(evs, fmt.Sprintf("R%d", any()))
-		case x < 16:
+		case x < 15:
 			evs = append(evs, fmt.Sprintf("F%d", any()))
-		case x < 17:
+		case x < 16:
 			evs = append(evs, fmt.Sprintf("P%d", any()))
-		default:
+		case x < 17:
 			evs = append(evs, "W")
+		default:
+			evs = append(evs, genCtl(r, any(), any()))
 		}
 	}
 	return strings.Join(evs, ";")
+}
+
+// genCtl: SETTINGS / PING / WINDOW_UPDATE / PRIORITY / CONTINUATION sequencing / GOAWAY / graceful shutdown.
+func genCtl(r *vh.Rand, live, other int) string {
+	id := live
+	if r.Chance(1, 3) {
+		id = other
+	}
+	switch x := r.Intn(40); {
+	case x < 4:
+		return "Sa"
+	case x < 6:
+		return "S"
+	case x < 11:
+		return "Si" + r.Pick("0", "1", "65535", "65536", "100000", "2147483647", "2147483648", "4294967295", "2147418112", "2147418113")
+	case x < 14:
+		return "G0"
+	case x < 15:
+		return "Ga"
+	case x < 16:
+		return fmt.Sprintf("G%d", 1+r.Intn(5))
+	case x < 20:
+		return "U0:" + r.Pick("1", "1000", "2147418112", "2147418113", "2147483647", "0")
+	case x < 27:
+		return fmt.Sprintf("U%d:%s", id, r.Pick("1", "1000", "2147418112", "2147418113", "2147483647", "0", "2147383647"))
+	case x < 31:
+		return fmt.Sprintf("Y%d:%d:%d", id, []int{0, 1, 3, id, other}[r.Intn(5)], r.Intn(2))
+	case x < 32:
+		return "Y0:1:0"
+	case x < 33:
+		return fmt.Sprintf("C%d", id)
+	case x < 34:
+		return fmt.Sprintf("X%d", other)
+	case x < 36:
+		return "A"
+	case x < 38:
+		return "Q"
+	default:
+		return "Sa"
+	}
 }
 
 func btoi(b bool) int {
